@@ -26,13 +26,14 @@ pub open spec fn bucket_of(key: Seq<u8>, n: int) -> int { (key_hash(key) as int)
 
 /// `s` is the chain of bucket `b`: starts at the bucket head, follows the next links, ends with next == 0,
 /// holds only key records that hash to `b`, no record twice
+pub open spec fn chain_member_ok(kw: HeapW, s: Seq<nat>, b: int, n: int, i: int) -> bool {
+    &&& is_key(kw, s[i])
+    &&& s[i] != 0
+    &&& knext(kw, s[i]) == nxt(s, i)
+    &&& bucket_of(kkey(kw, s[i]), n) == b
+}
 pub open spec fn chain_members_ok(kw: HeapW, s: Seq<nat>, b: int, n: int) -> bool {
-    forall|i: int| 0 <= i < s.len() ==> {
-            &&& #[trigger] is_key(kw, s[i])
-            &&& s[i] != 0
-            &&& knext(kw, s[i]) == nxt(s, i)
-            &&& bucket_of(kkey(kw, s[i]), n) == b
-        }
+    forall|i: int| 0 <= i < s.len() ==> #[trigger] chain_member_ok(kw, s, b, n, i)
 }
 pub open spec fn chain_distinct(s: Seq<nat>) -> bool {
     forall|i: int, j: int| 0 <= i < j < s.len() ==> s[i] != s[j]
@@ -115,7 +116,7 @@ pub proof fn lemma_chain_member(kw: HeapW, head: nat, s: Seq<nat>, b: int, n: in
         forall|j: int| 0 <= j < s.len() && j != i ==> s[j] != s[i], first(s) == head
 {
     reveal(chain_ok);
-    assert(is_key(kw, s[i]));
+    assert(chain_member_ok(kw, s, b, n, i));
     assert forall|j: int| 0 <= j < s.len() && j != i implies s[j] != s[i] by {
         if j < i { assert(s[j] != s[i]); } else { assert(s[i] != s[j]); }
     }
@@ -125,7 +126,7 @@ pub proof fn lemma_chain_head(kw: HeapW, head: nat, s: Seq<nat>, b: int, n: int)
     ensures first(s) == head, head == 0 <==> s.len() == 0
 {
     reveal(chain_ok);
-    if s.len() > 0 { assert(is_key(kw, s[0])); }
+    if s.len() > 0 { assert(chain_member_ok(kw, s, b, n, 0)); }
 }
 /// what the bytes say about a key record of the witness
 pub proof fn lemma_key_decodes(b: Seq<u8>, pm: PieceMgr, w: HeapW, o: nat)
